@@ -51,6 +51,17 @@ def client_sets(keys, nclients, max_per_client, max_total, scan=True):
     return out
 
 
+def burst_sets(keys, full=False):
+    """Write bursts: clients 1 and 2 issue one write each, client 3 a write followed by a read
+    (get of either key or a scan).  With a small memtable the three writes land in different
+    memtables whose flushes are in flight at the same time while the read runs.  ``full``: clients
+    1 and 2 may also delete; otherwise they only put."""
+    w12 = [(kd, k) for k in keys for kd in (("put", "del") if full else ("put",))]
+    w3 = [(kd, k) for k in keys for kd in ("put", "del")]
+    r3 = [("get", k) for k in keys] + [("scan",)]
+    return [((a,), (b,), (c, r)) for a in w12 for b in w12 for c in w3 for r in r3]
+
+
 def prefixes(keys, maxlen):
     ops = [(kd, k) for k in keys for kd in ("put", "del")]
     out = [()]
@@ -155,7 +166,8 @@ def execute(cfg, wal_mode, prefix, progs, offsets, max_events=4000):
     # sequential prefix (clock exists, stays at 0): *_sync where the engine has it, else hand-driven
     pre = []
     for j, (kd, k) in enumerate(prefix):
-        op = Op(0, j, kd, k, 10 * j + 1 if kd == "put" else None)
+        # prefix payloads 0, 10, 20: the first one is falsy on purpose (a stored 0 is a value, not a miss)
+        op = Op(0, j, kd, k, 10 * j if kd == "put" else None)
         ctx.begin(op, 0)
         if kd == "put":
             if j % 2 == 0:
@@ -360,7 +372,11 @@ def work(job):
     t0 = time.process_time()
     st = {"exec": 0, "ops": 0, "nontriv": 0, "outcomes": set(), "viol": {}, "samples": [],
           "unfinished": 0, "times": set(), "cap_hits": 0, "max_offset": 0}
-    sets = client_sets(keys, nclients, max_per, max_total, scan=cfg[0] != "kv")[chunk::nchunks]
+    if nclients == "burst":
+        sets = burst_sets(keys, full=bool(max_total))[chunk::nchunks]
+        nclients = 3
+    else:
+        sets = client_sets(keys, nclients, max_per, max_total, scan=cfg[0] != "kv")[chunk::nchunks]
     name = engine_name(cfg)
     grid = list(range(0, grid_cap + 1, GRID_NS))
 
